@@ -417,6 +417,11 @@ func pickScen1() scen {
 	if tag == "c08" && rnd.Chance(4) {
 		return scen{kind: "emptybody", nthreads: 2, policy: "directed", outcomes: Pick(rnd, []string{"all200", "mixed"}), directed: "emptybody"}
 	}
+	if tag == "c07" && rnd.Chance(6) {
+		// two runs of ONE process: the first finds the count files active (and parses them for their end
+		// date), the programs go on counting, the second run - after the week's end - folds them
+		return scen{kind: "grow", nthreads: 2, policy: "directed", outcomes: "all200", directed: "grow"}
+	}
 	if tag == "c07" {
 		switch rnd.Intn(10) {
 		case 0, 1, 2:
@@ -654,6 +659,23 @@ func scenario() {
 			}
 			w.makeCount(p, now, ctrs)
 		}
+	}
+
+	// scenario grow: the files as the FIRST run will see them (v1) are kept aside; then the programs
+	// count on (same files, larger values, a new counter): that final state is what the case describes
+	growV1 := map[string][]byte{}
+	if sc.directed == "grow" {
+		es, _ := os.ReadDir(w.local)
+		for _, e := range es {
+			if strings.HasSuffix(e.Name(), ".v1.count") {
+				growV1[e.Name()], _ = os.ReadFile(filepath.Join(w.local, e.Name()))
+			}
+		}
+		for pi := 0; pi < nProgs; pi++ {
+			p := progs[(pstart+pi)%len(progs)]
+			w.makeCount(p, forcedNow, [][2]int64{{int64(pi), int64(20 + rnd.Intn(9))}, {3, int64(30 + rnd.Intn(9))}, {int64((pi + 1) % 3), int64(40 + rnd.Intn(9))}})
+		}
+		out.Note("grow-files")
 	}
 
 	// count files with a valid header and metadata whose hash chains leave the file: a file that
@@ -943,6 +965,10 @@ func scenario() {
 			starts[i] = starts[i-1].Add(time.Duration(rnd.Intn(3)) * day)
 		}
 	}
+	if sc.directed == "grow" {
+		starts[0] = ends[0].Add(-time.Duration(1+rnd.Intn(3600)) * time.Second) // the week is not over yet
+		starts[1] = lastEnd.Add(time.Duration(1+rnd.Intn(5)) * day)
+	}
 	if sc.eventual {
 		starts[nth-1] = lastEnd.Add(time.Duration(1+rnd.Intn(5)) * day)
 		for i := 0; i < nth-1; i++ {
@@ -1067,6 +1093,16 @@ func scenario() {
 		head = append(head, I(starts[0].Unix()), I(int64(starts[0].Nanosecond())), B(modeOn), B(!asof.IsZero()), I(asof.Unix()))
 		faultCases(faultN, w, dir, cfg, starts[0], modeOn, asof, head)
 		return
+	}
+	// scenario grow: back to what the first run sees; both versions of a file are "that count file"
+	growV2 := map[string][]byte{}
+	for name, v1 := range growV1 {
+		v2, _ := os.ReadFile(filepath.Join(w.local, name))
+		growV2[name] = v2
+		if id, ok := w.blobOf[sha256.Sum256(v2)]; ok {
+			w.blobOf[sha256.Sum256(v1)] = id
+		}
+		os.WriteFile(filepath.Join(w.local, name), v1, 0666)
 	}
 	// ---- threads ----
 	url := "http://verif.invalid/upload"
@@ -1295,6 +1331,17 @@ func scenario() {
 			{tid: 1, until: func(ci callInfo, n int) bool { return ci.op == "ReadFile" && ci.phase == 2 }},
 			{tid: 2, until: func(ci callInfo, n int) bool { return ci.op == "Stat" }},
 			{tid: 1, until: never}, {tid: 2, until: never}, {tid: 0, until: never},
+		})
+		sc.policy = "seq"
+	case "grow":
+		runDirected([]dstep{
+			{tid: 0, until: never},
+			{tid: -1, do: func() {
+				for name, v2 := range growV2 {
+					os.WriteFile(filepath.Join(w.local, name), v2, 0666)
+				}
+			}},
+			{tid: 1, until: never},
 		})
 		sc.policy = "seq"
 	case "oldlock":
